@@ -14,7 +14,8 @@ RULE = ('chains of <=4 commands over {Continue(f,*a,**k), Wait(f,msg,data)+resum
         'Kill(msg), raise} x argument shapes (no/one/many positional, keyword, mixed, None/falsy values) x sync/async continuations, each run '
         'plain and with every boundary a crash point; distinct by (chain, crash set); non-trivial when a continuation received arguments or a '
         'terminal command was judged')
-ASSUMPTIONS = ['arguments are JSON-representable values (so equality after a pickle round trip is value equality)',
+ASSUMPTIONS = ['arguments are JSON-representable values (so equality after a pickle round trip is value equality), plus two resume values with an unusual == '
+               '(equal to anything; == without a truth value) compared by their repr',
                'reference interpreter written from the property statement']
 REQUIRED = ['resume_with_pause', 'mutating_chains', 'continuations', 'kwargs_checked', 'resume_with_value', 'resume_without_value', 'restored_runs', 'terminal/finished', 'terminal/killed',
             'terminal/excepted', 'unsuccessful']
@@ -22,7 +23,7 @@ BOUNDS = {'quick': 'all 2-command chains over the shape alphabet + 300 random ch
           'thorough': '3000 random chains, every subset of <=2 boundaries'}
 
 ARGSHAPES = [([], {}), ([1], {}), ([1, 'b', None], {}), ([], {'k': 3}), ([0], {'k': None, 'z': [1, 2]}), ([False, ''], {'kw': {'n': 1}}), ([[5, 6], {'m': 1}], {})]
-RESUMES = [[True, 'rv'], [True, None], [True, 0], [False, None], [True, {'d': [1]}]]
+RESUMES = [[True, 'rv'], [True, None], [True, 0], [False, None], [True, {'d': [1]}], [True, '@ANYEQ'], [True, '@NOBOOL']]
 TERMINALS = [['value', None], ['value', 7], ['value', ''], ['stop', 'r', True], ['stop', 0, False], ['unsucc', 3], ['kill', 'bye'], ['raise', 'err']]
 
 
@@ -80,7 +81,7 @@ def run_case(case):
 
     def resume_for_wait(j):
         has, val = resumes[j] if j < len(resumes) else [True, 'extra']
-        return [copy.deepcopy(val)] if has else []
+        return [programs.special(copy.deepcopy(val))] if has else []  # ('@ANYEQ' / '@NOBOOL': values with an unusual ==)
 
     r = persist.run_with_crashes(lambda loop: cls(loop=loop), case['crash'], resume_for_wait, resume_mode=case.get('resume_mode', 'plain'))
     obs = {'continuations': 0, 'kwargs_checked': 0, 'resume_with_value': 0, 'resume_without_value': 0, 'restored_runs': 0, 'terminal': {},
